@@ -138,8 +138,8 @@ func main() {
 		out := kit.NewOut(os.Args[3])
 		rng := rand.New(rand.NewSource(seed))
 		for i := 0; i < n; i++ {
-			if i%4 == 3 { // every fourth case: deep instead of wide (60..120 levels), same judge
-				dp := deepProg(rng, []int{60, 90, 120}[(i/4)%3], i)
+			if i%4 == 3 { // every fourth case: deep instead of wide (60..120 levels, and far beyond 1000 and 2000 levels), same judge
+				dp := deepProg(rng, []int{60, 1100, 90, 2600, 120, 1700}[(i/4)%6], i)
 				root, pm := treelib.RunProg(dp, seed*31+int64(i))
 				ev := map[string]any{"what": fmt.Sprintf("program nested %d levels deep, buffer %d bits", len(dp.Prog)/4, dp.Len), "panic": pm, "nnodes": 0, "refwhy": "ok", "refgap": "ok"}
 				if root != nil {
